@@ -11,7 +11,7 @@ RULE = ("real ssnet.runonce on both tunnel ends over fake sockets, every micro-s
         "accepted; distinct by case seed")
 TRUSTED_BASE = sc.STREAM_TB
 ASSUMPTIONS = sc.STREAM_ASSUMPTIONS
-PROFILES = ["close","close","bulk","fault","many"]
+PROFILES = ["close","close","bulk","fault","many","wrap"]
 
 
 def correspondence(ctx):
